@@ -717,7 +717,7 @@ def _run_partitions(tier, seed, v):
     maxn, parts, subs = _tlc_partitions(tier, v)
     from pharmpy.internals.set.partitions import partitions
     from pharmpy.internals.set.subsets import non_empty_subsets
-    from pharmpy.modeling import add_pk_iiv, create_joint_distribution, read_model, remove_iiv, set_peripheral_compartments
+    from pharmpy.modeling import add_iiv, add_pk_iiv, create_joint_distribution, read_model, remove_iiv, set_peripheral_compartments
     from pharmpy.tools.iivsearch.algorithms import td_exhaustive_block_structure, td_exhaustive_no_of_etas
 
     rng = random.Random(seed * 5 + 1)
@@ -737,13 +737,22 @@ def _run_partitions(tier, seed, v):
                              f"duplicated {[fmt(x) for x, c in got.items() if c > 1][:3]} extra {[fmt(x) for x in list(extra)[:3]]} "
                              f"missing {[fmt(x) for x in list(missing)[:3]]}")
 
+    unsorted_names = ["ETA_VC", "ETA_MAT", "ETA_CL", "ETA_10", "ETA_2", "ETA_KA"]  # not in lexicographic order
     for n in range(0, maxn + 1):
-        for label, elems in (("ints", list(range(1, n + 1))), ("names", [f"ETA_{i}" for i in range(1, n + 1)])):
+        shuffled = list(range(1, n + 1))
+        rng.shuffle(shuffled)
+        for label, elems in (("ints", list(range(1, n + 1))), ("names", [f"ETA_{i}" for i in range(1, n + 1)]),
+                             ("unsorted_names", unsorted_names[:n]), ("shuffled_ints", shuffled)):
             back = {e: i for i, e in enumerate(elems, 1)}
             rec = {"check": "partitions", "n": n, "elements": label, "outcome": None}
             try:
-                got = Counter(frozenset(frozenset(back[e] for e in b) for b in p) for p in partitions(elems))
+                plist = list(partitions(elems))
+                got = Counter(frozenset(frozenset(back[e] for e in b) for b in p) for p in plist)
                 cmp(rec, got, Counter(parts.get(n, [])), f"partitions of {n} {label}")
+                # design layer: iivsearch recognises the base structure by tuple equality with the model's own
+                # distributions, i.e. it relies on the caller's element order inside every part (not documented)
+                if any([back[e] for e in b] != sorted(back[e] for e in b) for p in plist for b in p) and len(v.notes) < 20:
+                    v.notes.append(f"drift: partitions({elems}) does not keep the caller's element order inside the parts")
             except Exception as e:
                 rec["outcome"] = type(e).__name__
                 v.violation(rec, f"partitions({elems}): {type(e).__name__}: {e}")
@@ -767,6 +776,26 @@ def _run_partitions(tier, seed, v):
         if n >= 3:
             blk = sorted(rng.sample(keep, rng.randint(2, n - 1)), key=all_etas.index)
             models.append((n, "block", create_joint_distribution(m, blk)))
+    # base models whose eta names are NOT in lexicographic order in the model (ETA_1, ETA_VC, ETA_MAT, ETA_VP1, ETA_QP1) and
+    # that already carry a block of such etas: the builder must still skip exactly the base model's own structure
+    alt = remove_iiv(base, ["ETA_2", "ETA_3"])
+    alt = add_iiv(add_iiv(alt, ["VC"], "exp"), ["MAT"], "exp")
+    alt = set_peripheral_compartments(alt, 1)
+    alt = add_iiv(add_iiv(alt, ["VP1"], "exp"), ["QP1"], "exp")
+    alt_etas = list(alt.random_variables.iiv.names)
+    if alt_etas != ["ETA_1", "ETA_VC", "ETA_MAT", "ETA_VP1", "ETA_QP1"]:
+        raise core.MachineryError(f"unexpected eta names {alt_etas}")
+    pick = ["ETA_VC", "ETA_MAT", "ETA_1", "ETA_VP1", "ETA_QP1"]
+    for n in range(2, min(maxn, 5) + 1):
+        keep = sorted(pick[:n], key=alt_etas.index)
+        m = remove_iiv(alt, [e for e in alt_etas if e not in keep]) if n < 5 else alt
+        models.append((n, "block_unsorted_names", create_joint_distribution(m, ["ETA_VC", "ETA_MAT"])))
+        if n >= 4:
+            blk = ["ETA_VC", "ETA_MAT"] + rng.sample([e for e in keep if e not in ("ETA_VC", "ETA_MAT")], rng.randint(1, n - 2))
+            models.append((n, "block_unsorted_names", create_joint_distribution(m, sorted(blk, key=alt_etas.index))))
+            others = [e for e in keep if e not in ("ETA_VC", "ETA_MAT")]
+            models.append((n, "two_blocks_unsorted_names",
+                           create_joint_distribution(create_joint_distribution(m, ["ETA_VC", "ETA_MAT"]), others[-2:])))
     for n, structure, m in models:
         etas = list(m.random_variables.iiv.names)
         back = {e: i for i, e in enumerate(etas, 1)}
